@@ -570,22 +570,27 @@ def _rwr_task(args):
 
 
 def rwr_tasks(ctx):
-    """quick: per kind, both readers = get_all_trials x every write program, plus one triple picked by the seed; every p
-    (every 3rd on the gRPC kinds, whose calls are several hundred lines long) x 2-3 seeded q.
+    """quick: per kind, both readers = get_all_trials x every write program (3 of the 5, rotating with the seed, on the
+    expensive kinds: SQLite and gRPC), plus one other triple picked by the seed; every p (every 3rd, seeded offset, on the gRPC
+    kinds, whose calls are several hundred lines long) x 2-3 seeded q.
     thorough: every triple; every (p, q) where both readers are the same call (grids above RWR_GRID_CAP schedules, i.e. the
     gRPC kinds, thinned evenly with a seeded offset), every p x 8 seeded q for the mixed ones"""
     triples = rwr_triples()
     tasks = []
+    nw = len(RWR_WRITE)
     for k, kind in enumerate(RWR_KINDS):
         if ctx.quick:
-            nq = 2 if kind == "cached_rdb_threads" else 3
+            costly = kind == "cached_rdb_threads" or kind.startswith("grpc")
+            nq = 2 if costly else 3
             pstride = 3 if kind.startswith("grpc") else 1
+            ws = [(ctx.seed + k + j) % nw for j in range(3)] if costly else range(nw)
             mixed = [t for t in triples if (t[0], t[2]) != (0, 0)]
-            chosen = [(0, w, 0) for w in range(len(RWR_WRITE))] + [mixed[(ctx.seed * 7 + k * 3) % len(mixed)]]
+            chosen = [(0, w, 0) for w in ws] + [mixed[(ctx.seed * 7 + k * 3) % len(mixed)]]
             tasks += [(kind, a, w, b, nq, pstride, ctx.seed) for a, w, b in chosen]
         else:
             tasks += [(kind, a, w, b, None if a == b else 8, 3 if kind.startswith("grpc") and a != b else 1, ctx.seed)
                       for a, w, b in triples]
+    tasks.sort(key=lambda t: {"cached_rdb_threads": 0, "grpc_stub_inmemory": 1, "grpc_stub_journal": 1}.get(t[0], 2))   # longest first
     return tasks
 
 
